@@ -5,10 +5,12 @@ import (
 	"encoding/binary"
 	"encoding/json"
 	"fmt"
+	"reflect"
 	"sort"
 
 	"go.sia.tech/core/consensus"
 	"go.sia.tech/core/types"
+	"verif/harness/gen"
 	"verif/harness/ref"
 )
 
@@ -450,4 +452,55 @@ func (fw *Followers) AgreeWith(st *Store) (int, error) {
 		}
 	}
 	return n, nil
+}
+
+// OwnedElements gathers the elements an update hands out through its exported accessors and which the caller may keep
+// as they are (Move() is permitted: their memory is not marked shared).
+type OwnedElements struct {
+	SC   []types.SiacoinElement
+	SF   []types.SiafundElement
+	FC   []types.FileContractElement
+	V2FC []types.V2FileContractElement
+	CI   []types.ChainIndexElement
+}
+
+func movable(f func()) (ok bool) {
+	defer func() {
+		if recover() != nil {
+			ok = false
+		}
+	}()
+	f()
+	return true
+}
+
+// ElementsHazard reports whether two elements an ApplyUpdate hands out as the caller's own (not marked shared) occupy
+// one backing array in such a way that refreshing one of them (UpdateElementProof appends to the proof when the forest
+// grows) would write into another one.
+func ElementsHazard(au consensus.ApplyUpdate) error {
+	var o OwnedElements
+	for _, d := range au.SiacoinElementDiffs() {
+		if d.Created && movable(func() { d.SiacoinElement.Move() }) {
+			o.SC = append(o.SC, d.SiacoinElement)
+		}
+	}
+	for _, d := range au.SiafundElementDiffs() {
+		if d.Created && movable(func() { d.SiafundElement.Move() }) {
+			o.SF = append(o.SF, d.SiafundElement)
+		}
+	}
+	for _, d := range au.FileContractElementDiffs() {
+		if d.Created && movable(func() { d.FileContractElement.Move() }) {
+			o.FC = append(o.FC, d.FileContractElement)
+		}
+	}
+	for _, d := range au.V2FileContractElementDiffs() {
+		if d.Created && movable(func() { d.V2FileContractElement.Move() }) {
+			o.V2FC = append(o.V2FC, d.V2FileContractElement)
+		}
+	}
+	if cie := au.ChainIndexElement(); movable(func() { cie.Move() }) {
+		o.CI = append(o.CI, cie)
+	}
+	return gen.AppendHazard(reflect.ValueOf(&o).Elem())
 }
